@@ -162,6 +162,33 @@ def assembleRtf {α : Type} (fs : α → Option File) (inputs : List α) : Outco
   | .error _ => ⟨.indexError, none⟩
   | .ok ls => ⟨.returned, some ls⟩
 
+/-! ## a concrete file system: a finite map from names to contents
+
+`assembleRtf` takes the resolution of a name to a content as the parameter `fs`.  A name is the string
+handed to `os.path.exists` / `open` — whatever characters it contains (`*`, `?`, `[`, blanks, `~`, `$`, …)
+it denotes the one file the operating system finds under exactly that name, never a pattern.  `Fs` is the
+concrete instance: a directory as an association list (first entry of a name wins), which may hold any
+number of files that are NOT listed (neighbours whose names the listed ones would match as patterns, backup
+copies, …), and the output path among them. -/
+
+abbrev Fs (α : Type) := List (α × File)
+
+/-- the content found under exactly the name `p` -/
+def Fs.read {α : Type} [DecidableEq α] : Fs α → α → Option File
+  | [], _ => none
+  | (q, f) :: rest, p => if q = p then some f else Fs.read rest p
+
+/-- `open(p, "w").writelines(f)` -/
+def Fs.write {α : Type} (d : Fs α) (p : α) (f : File) : Fs α := (p, f) :: d
+
+/-- the call in a directory `d`: every read goes through `d.read` of a listed name, the only write is the
+output path; returns the outcome and the directory afterwards -/
+def assembleIn {α : Type} [DecidableEq α] (d : Fs α) (inputs : List α) (out : α) : Outcome α × Fs α :=
+  let o := assembleRtf d.read inputs
+  (o, match o.written with
+      | none => d
+      | some ls => d.write out ls)
+
 /-! ## the shape of a file written by rtflite, and the closed form of the result -/
 
 /-- A file cut at its font table:
